@@ -171,7 +171,7 @@ pub fn c01(tier: Tier) -> PropSpec {
         rule: "generated ADFs (random syntax / random truth-table functions / propagation chains / cycles; \
                random labels, fact order, layout, sort mode) -> grounded() on native, biodivine, hybrid(+/- \
                pre-grounding), from_biodivine compared with the least fixpoint of the three-valued operator \
-               computed on truth tables (n<=7) or by local three-valued evaluation (large, n<=40). \
+               computed on truth tables (n<=7) or by local three-valued evaluation (large: n 10..40, a quarter 60..100 statements). \
                Non-trivial: the fixpoint needs >= 3 rounds, or has both decided and undecided statements; \
                distinct by hash of (formulas, labels, layout, sort).",
         assumptions: vec![
@@ -191,7 +191,7 @@ pub fn c01(tier: Tier) -> PropSpec {
                 tier.pick(1500, 20000),
                 || {
                     (
-                        gen::adf_case(gen::adf_large(10, 40, 8, 5), LabelClass::Alnum),
+                        gen::adf_case(prop_oneof![3 => gen::adf_large(10, 40, 8, 5), 1 => gen::adf_large(60, 100, 6, 4)].boxed(), LabelClass::Alnum),
                         sort_strategy(),
                     )
                         .prop_map(|(adf, sort)| SemCase { adf, sort })
